@@ -13,6 +13,11 @@ CHECKS = {
             "Every patch of <=2 ops (<=3 on a reduced set in thorough) over a 4-path / 12-hunk-list alphabet plus 16 malformed envelopes is applied by the real Workspace::apply_patch (and the apply_patch tool) to every enumerated workspace state; success must equal the reference map and name exactly the touched files, failure must leave every byte unchanged.",
             "Values outside the alphabet (other line contents, >3 ops, symlinks, permission errors) are not covered; hunk-matching rules of the reference restate the code's documented behaviour (first match at/after cursor); mixed-EOL files compared modulo CR; left-over empty directories are information only.",
             "DESIGN.md §3 C12"),
+    "C13": ("H-inputs", "exploration",
+            "bounded exhaustive enumeration of a path-string grammar in every path-taking argument of the real tools/router, cwd = root and != root (subprocesses), sentinel tree + canary oracle",
+            "Every string of the path grammar (1-2/1-3 segments from {a,d,..,.,'',unicode,300 chars} x trailing slash x absolute-outside / absolute-inside anchors x backslash joins, plus deeper escapes) is supplied as each of 14 path-taking arguments through the real ToolRunner with the production checkpoint hook and through POST /tasks; the tree outside the root must stay byte-identical, a canary outside must never surface in outputs or under .rip, paths that are absolute or contain '..' must be refused and leave no effect (checkpoint store included).",
+            "Lexical resolvers are assumed (no symlinks in the workspace); absolute test paths are anchored inside the scratch area; checkpoint creation may accept absolute paths inside the root; log artifacts of a refused task are bookkeeping, not side effects; PTY tasks excluded (no PTY in the sandbox).",
+            "DESIGN.md §3 C13"),
     "C15": ("H-inputs", "exploration",
             "bounded exhaustive enumeration of SSE byte streams x all chunk partitions through the real decode pipe; differential (single chunk vs partition) + reference SSE parser",
             "Every stream of <=2/3 blocks from a 14-block alphabet x {LF,CRLF} x {complete, missing final blank line, missing final EOL} is delivered through the real push_bytes -> SseDecoder -> EventFrameMapper -> sink pipe in all 2^(n-1) partitions (<=14/17 bytes) or all 1-splits, 2-splits and byte-at-a-time; frames, seqs, terminal flag and collected tool calls must equal the single-chunk delivery, which must equal a reference SSE parser on the lossily decoded body.",
